@@ -2,6 +2,7 @@ package rules
 
 import (
 	"fmt"
+	"go/constant"
 	"go/token"
 	"go/types"
 	"sort"
@@ -19,6 +20,7 @@ func init() {
 			`R15.2 no range over a map with an order-sensitive body in functions reachable from the diff/optimize entry points (allowed: commutative accumulation, stores into maps, delete, collect-then-sort); ` +
 			`R15.3 ordered fan-in: the channel consumed by writeMessages has exactly one (single-instance) sender, workers send only on their own channel, the collector hands the token back and the dispatcher takes it before handing out work; ` +
 			`R15.4 ambient values (time, CPU count, GOMAXPROCS, random, pid, memory statistics) reach only statistics fields and diagnostics, never comparisons, data or parameters. ` +
+			`R15.5 the buffer handed to io.ReadAtLeast in package wsync is exactly min long (s[lo:lo+min], s[:min], or min = len(buf)): how much a refill takes does not depend on the reader. ` +
 			`NOT decided: byte-identical output as such, races on slice elements (partitioned sub-slices), races inside dependencies, short reads of the source pool.`,
 		Assumptions: []string{
 			"slice element accesses are not tracked (partitioned sub-slices such as I[st:en] cannot be proved disjoint statically)",
@@ -35,6 +37,7 @@ func init() {
 			`R19.2 the resume file (a pseudo-variable for the path in settings.ResumeFrom) is written by the workers only under a common lock, i.e. it has one ordered writer; ` +
 			`R19.3 every worker sends exactly one result on every path and the parent collects them; R19.4 the set of finished entries behind the marker is keyed by the entry index itself, not by a reduction of it; R19.5 no function of package archiver that changes the tree (removes, creates, renames) examines a path with os.Stat, which follows links - entries are examined with Lstat, so that re-extraction over an existing tree stays idempotent for links. ` +
 			`R19.6 functions of package archiver that walk a tree to archive it never refer to filepath.SkipDir / SkipAll; R16.8 (shared) workers are waited for only after they were released. ` +
+			`R19.7 no strings.HasPrefix/HasSuffix/Contains(x, "..") in package archiver (a test of characters where path elements are meant; legal names such as ..data would be refused). ` +
 			`NOT decided: tree equality, tar, symlink/dir recreation, and whether the marker value is a contiguous high-water mark (value-level; a lock is necessary, not sufficient).`,
 		Assumptions: []string{
 			"state.Consumer and the OnEntryDone / OnUncompressedSizeKnown callbacks are assumed internally synchronised",
@@ -104,6 +107,7 @@ func runC15(c *core.Ctx) {
 	c.Rule("R15.2", "map order does not reach the output")
 	c.Rule("R15.3", "ordered fan-in")
 	c.Rule("R15.4", "no ambient nondeterminism on the data path")
+	ruleRefillTakesExactlyOneBlock(c, "R15.5")
 	sites := []struct {
 		pkg, fn string
 		min     int
@@ -634,6 +638,21 @@ func runC19(c *core.Ctx) {
 	c.Rule("R19.5", "entries are examined without following links")
 	ruleNoFollow(c, "R19.5", "/archiver")
 	ruleNoJoinBeforeRelease(c, "R16.8", 1, 1, "/archiver")
+	c.Rule("R19.7", "entry names are not refused by a textual test for '..'")
+	{
+		nFn := 0
+		for _, fn := range c.P.SrcFuncs() {
+			if fn.Parent() != nil || !strings.HasSuffix(core.PkgPathOf(fn), "/archiver") {
+				continue
+			}
+			nFn++
+			for _, bad := range dotDotTextTests(fn) {
+				c.Bad("R19.7", core.FnName(fn), "textual test for \"..\": "+core.CalleeName(bad), core.InstrPos(bad),
+					"a name is tested with strings."+strings.TrimPrefix(core.CalleeName(bad), "strings.")+"(…, \"..\"): that is a test of characters, not of path elements - it also refuses legal entries whose name merely begins with (ends with, contains) two dots, such as ..data or ...; the archive of a tree with such an entry cannot be extracted")
+			}
+		}
+		c.Floor("R19.7", "functions of package archiver", nFn, 5)
+	}
 	c.Rule("R19.6", "the compressing walkers prune nothing")
 	{
 		nWalk := 0
@@ -828,6 +847,9 @@ func fixturesC15(fc *core.Ctx) map[string]bool {
 		if len(walkPrunes(fn)) > 0 {
 			rep[fn.Name()] = true
 		}
+		if len(dotDotTextTests(fn)) > 0 {
+			rep[fn.Name()] = true
+		}
 		core.Instrs(fn, func(in ssa.Instruction) {
 			if rg, ok := in.(*ssa.Range); ok {
 				if _, isMap := rg.X.Type().Underlying().(*types.Map); isMap && len(mapRangeProblems(fn, rg)) > 0 {
@@ -862,4 +884,77 @@ func walkPrunes(top *ssa.Function) []ssa.Instruction {
 		})
 	}
 	return out
+}
+
+// dotDotTextTests lists the calls strings.HasPrefix / HasSuffix / Contains(x, "..") in fn's family.
+func dotDotTextTests(top *ssa.Function) []*ssa.Call {
+	var out []*ssa.Call
+	for _, f := range core.WithAnons(top) {
+		core.Instrs(f, func(in ssa.Instruction) {
+			cl, ok := in.(*ssa.Call)
+			if !ok || len(cl.Call.Args) != 2 {
+				return
+			}
+			switch core.CalleeName(cl) {
+			case "strings.HasPrefix", "strings.HasSuffix", "strings.Contains":
+			default:
+				return
+			}
+			if k, ok := cl.Call.Args[1].(*ssa.Const); ok && k.Value != nil && k.Value.Kind() == constant.String && constant.StringVal(k.Value) == ".." {
+				out = append(out, cl)
+			}
+		})
+	}
+	return out
+}
+
+// ruleRefillTakesExactlyOneBlock is R15.5: the differ (and the signer) must cut their input into the same
+// blocks whatever sizes the reader hands its data out in. A refill by io.ReadAtLeast(r, buf, min) takes
+// between min and len(buf) bytes - how many depends on the reader - unless len(buf) is min: the buffer is a
+// two-index slice whose bounds are min apart (or the call is io.ReadFull).
+func ruleRefillTakesExactlyOneBlock(c *core.Ctx, rule string) {
+	c.Rule(rule, "a refill takes a number of bytes that does not depend on the reader")
+	n := 0
+	for _, fn := range c.P.SrcFuncs() {
+		if !strings.HasSuffix(core.PkgPathOf(fn), "/wsync") {
+			continue
+		}
+		core.Instrs(fn, func(in ssa.Instruction) {
+			cl, ok := in.(*ssa.Call)
+			if !ok || core.CalleeName(cl) != "io.ReadAtLeast" || len(cl.Call.Args) != 3 {
+				return
+			}
+			n++
+			buf, min := cl.Call.Args[1], cl.Call.Args[2]
+			exact := false
+			// min is the length of the very buffer
+			if lc, ok := core.StripConv(min).(*ssa.Call); ok {
+				if b, ok := lc.Call.Value.(*ssa.Builtin); ok && b.Name() == "len" && (sameVal(lc.Call.Args[0], buf) || sameExpr(lc.Call.Args[0], buf)) {
+					exact = true
+				}
+			}
+			for _, o := range core.Origins(buf) {
+				sl, ok := o.(*ssa.Slice)
+				if !ok || sl.High == nil {
+					continue
+				}
+				hi, ok := core.StripConv(sl.High).(*ssa.BinOp)
+				if !ok || hi.Op != token.ADD {
+					// buf[:min]
+					if sl.Low == nil && (sameVal(sl.High, min) || sameExpr(sl.High, min)) {
+						exact = true
+					}
+					continue
+				}
+				same := func(a, b ssa.Value) bool { return a != nil && b != nil && (sameVal(a, b) || sameExpr(a, b)) }
+				if sl.Low != nil && ((same(hi.X, sl.Low) && same(hi.Y, min)) || (same(hi.Y, sl.Low) && same(hi.X, min))) {
+					exact = true
+				}
+			}
+			c.Check(exact, rule, core.FnName(fn), "the buffer given to io.ReadAtLeast is exactly min long", core.InstrPos(in),
+				"buf is s[lo:lo+min] (or s[:min]): the call returns min bytes or the end of the stream, never a number the reader chose",
+				"the refill can take more than the minimum when the reader offers more: where blocks and data ops are cut then depends on how the source pool slices its reads, and the same build pair yields different patches (a short last block read together with its predecessor is no longer recognised)")
+		})
+	}
+	c.Floor(rule, "io.ReadAtLeast refills in package wsync", n, 1)
 }
